@@ -136,25 +136,17 @@ theorem sourceLoop_conts (base : Str) (conts : List Str) (more : List Str)
 theorem organism_SubKw : SubKw c!"ORGANISM" := by
   refine ⟨by decide, by decide, by decide, by decide⟩
 
-/-- SOURCE and ORGANISM: both texts are recovered, for every wrapping -/
-theorem getSourceOrganism_blocks (src org : Str) (bs bo : List Nat) (more : List Str)
-    (hs : isText src = true) (ho : isText org = true) (hm : StartsStop more) :
+/-- the SOURCE block, whatever ends it: the source text is recovered for every wrapping, the organism is what
+`sourceLoop` makes of the lines after the block (`horg`) -/
+theorem getSourceOrganism_source (src org : Str) (bs : List Nat) (after : List Str)
+    (hs : isText src = true) (horg : ∀ s : Str, sourceLoop s after = .ok (s, org)) :
     getSourceOrganism (split ((block c!"SOURCE" src bs).headD []) c!" ")
-      ((block c!"SOURCE" src bs).drop 1 ++ (block c!"  ORGANISM" org bo ++ more)) = .ok (src, org) := by
-  rw [block_eq c!"SOURCE", block_eq c!"  ORGANISM"]
-  simp only [List.headD_cons, List.drop_succ_cons, List.drop_zero, List.cons_append]
+      ((block c!"SOURCE" src bs).drop 1 ++ after) = .ok (src, org) := by
+  rw [block_eq c!"SOURCE"]
+  simp only [List.headD_cons, List.drop_succ_cons, List.drop_zero]
   unfold getSourceOrganism
   have hpad : ∀ X : Str, padRight c!"SOURCE" 12 ++ X = c!"SOURCE" ++ ' ' :: (spaces 5 ++ X) := fun _ => rfl
   rw [hpad, join_drop_split c!"SOURCE" _ (by decide)]
-  obtain ⟨hj, hh⟩ := subBlock_join c!"ORGANISM" org bo more organism_SubKw ho hm
-  obtain ⟨o1, o2, o3⟩ := subLine_checks c!"ORGANISM" ((wrapText bo org).headD []) organism_SubKw
-  have horg : ∀ (s : Str), sourceLoop s ((padRight c!"  ORGANISM" 12 ++ (wrapText bo org).headD []) ::
-      (((wrapText bo org).drop 1).map (spaces 12 ++ ·) ++ more)) = .ok (s, org) := by
-    intro s
-    have e : padRight c!"  ORGANISM" 12 ++ (wrapText bo org).headD [] = subLine c!"ORGANISM" ((wrapText bo org).headD []) := rfl
-    rw [e]
-    simp only [sourceLoop, o2, o3, hh, hj]
-    simp
   by_cases hne : src = []
   · subst hne
     simp only [wrapText, wrapAux, List.headD_cons, List.append_nil, List.drop_succ_cons, List.drop_zero, List.map_nil,
@@ -174,6 +166,36 @@ theorem getSourceOrganism_blocks (src org : Str) (bs bo : List Nat) (more : List
       simp only [List.headD_cons, List.drop_succ_cons, List.drop_zero]
       rw [e, sourceLoop_conts c0 cs _ h0 (fun c hc => hch c (by simp [hc])), hj']
       exact horg src
+
+/-- SOURCE and ORGANISM: both texts are recovered, for every wrapping -/
+theorem getSourceOrganism_blocks (src org : Str) (bs bo : List Nat) (more : List Str)
+    (hs : isText src = true) (ho : isText org = true) (hm : StartsStop more) :
+    getSourceOrganism (split ((block c!"SOURCE" src bs).headD []) c!" ")
+      ((block c!"SOURCE" src bs).drop 1 ++ (block c!"  ORGANISM" org bo ++ more)) = .ok (src, org) := by
+  apply getSourceOrganism_source src org bs _ hs
+  rw [block_eq c!"  ORGANISM"]
+  simp only [List.cons_append]
+  obtain ⟨hj, hh⟩ := subBlock_join c!"ORGANISM" org bo more organism_SubKw ho hm
+  obtain ⟨o1, o2, o3⟩ := subLine_checks c!"ORGANISM" ((wrapText bo org).headD []) organism_SubKw
+  intro s
+  have e : padRight c!"  ORGANISM" 12 ++ (wrapText bo org).headD [] = subLine c!"ORGANISM" ((wrapText bo org).headD []) := rfl
+  rw [e]
+  simp only [sourceLoop, o2, o3, hh, hj]
+  simp
+
+/-- SOURCE without an ORGANISM line (6ccbb58): the keyword line that follows ends SOURCE and is not the organism -/
+theorem getSourceOrganism_alone (src : Str) (bs : List Nat) (m : Str) (rest : List Str)
+    (hs : isText src = true) (hm : quickMetaCheck m = .ok true) :
+    getSourceOrganism (split ((block c!"SOURCE" src bs).headD []) c!" ")
+      ((block c!"SOURCE" src bs).drop 1 ++ m :: rest) = .ok (src, []) := by
+  apply getSourceOrganism_source src [] bs _ hs
+  intro s
+  cases m with
+  | nil => simp [quickMetaCheck] at hm
+  | cons c0 cs =>
+    have hc0 : c0 ≠ ' ' := by
+      intro h; subst h; simp [quickMetaCheck] at hm
+    simp [sourceLoop, Str.at, quickSubMetaCheck, hc0]
 
 /-! ### REFERENCE -/
 
